@@ -225,10 +225,11 @@ ToJSON(w)   == [x \in Weekdays |-> IF w[x] = Empty4 THEN Absent ELSE w[x]]
 FromJSON(j) == [x \in Weekdays |-> IF j[x] = Absent THEN Empty4 ELSE j[x]]
 ToYAML(w)   == w
 FromYAML(y) == y
-\* Decoding is a function of the document alone: whatever schedule the
-\* receiving object held before (a zero value, defaults, the previous
-\* configuration) does not show through.  The harness decodes every vector
-\* into a fresh and into an already populated receiver.
+\* Decoding is a function of the document and the verdict alone: an accepted
+\* document replaces whatever schedule the receiving object held before (a
+\* zero value, defaults, the previous configuration) completely, a rejected
+\* one leaves it completely alone (MS!DecodeOutcomes).  The harness decodes
+\* every vector into a fresh and into an already populated receiver.
 DecodeJSONInto(prev, j) == FromJSON(j)
 DecodeYAMLInto(prev, y) == FromYAML(y)
 Receivers == {[x \in Weekdays |-> Empty4], [x \in Weekdays |-> R4(3600000, 7620000, 0, 0)]}
@@ -342,4 +343,12 @@ RoundTripIdentity ==
         /\ FromYAML(ToYAML(FromJSON(ToJSON(w)))) = w
         /\ \A prev \in Receivers : /\ DecodeJSONInto(prev, ToJSON(w)) = w
                                    /\ DecodeYAMLInto(prev, ToYAML(w)) = w
+\* All or nothing, whatever the verdict.
+AllOrNothing ==
+    SerDone =>
+        LET doc == [w |-> SerWeek(ser.d, ser.r, ser.fill)] IN
+        \A prev \in Receivers :
+            \A o \in MS!DecodeOutcomes([w |-> prev], doc) :
+                /\ (o.ok => o.val = doc /\ "accept" \in ser.verdicts)
+                /\ (~o.ok => o.val.w = prev /\ "reject" \in ser.verdicts)
 =============================================================================
